@@ -24,8 +24,8 @@ func init() {
 		Required:      []string{"shape:unionQuery"},
 		Families: []Family{
 			witnessFamily("C11"),
-			{Name: "pairs", N: tierN(60, 400), Run: c11Pairs},
-			{Name: "rand", N: tierN(40000, 600000), Run: c11Random},
+			{Name: "pairs", N: tierN(240, 2000), Run: c11Pairs},
+			{Name: "rand", N: tierN(150000, 2000000), Run: c11Random},
 		},
 	})
 }
